@@ -51,6 +51,8 @@ class Ctx:
         self.inconclusive_: list[str] = []
         self.known_seen: dict[str, int] = {}
         self.notes: dict[str, object] = {}
+        self.lines: dict[str, list[int]] = {}
+        self.executable: dict[str, list[int]] = {}
 
     # -- bookkeeping -----------------------------------------------------------------------
     def evaluated(self, case_fp=None, nontrivial: bool = False, n: int = 1):
@@ -101,6 +103,8 @@ class Ctx:
             "samples": self.samples,
             "inconclusive": self.inconclusive_,
             "notes": self.notes,
+            "lines": self.lines,
+            "executable": self.executable,
         }
 
 
@@ -145,7 +149,7 @@ def _run_one(prop, tier, seed, idx, shard, workdir, timeout):
 
 def merge(results: list[dict]) -> dict:
     m = {"evaluations": 0, "nontrivial": set(), "counters": {}, "not_judged": {}, "classes": {}, "maxima": {},
-         "violations": [], "n_violations": 0, "samples": [], "inconclusive": [], "notes": {}}
+         "violations": [], "n_violations": 0, "samples": [], "inconclusive": [], "notes": {}, "lines": {}, "executable": {}}
     for r in results:
         m["evaluations"] += r.get("evaluations", 0)
         m["nontrivial"].update(r.get("nontrivial", []))
@@ -161,7 +165,23 @@ def merge(results: list[dict]) -> dict:
         m["inconclusive"].extend(r.get("inconclusive", []))
         for k, v in r.get("notes", {}).items():
             m["notes"].setdefault(k, v)
+        for k, v in r.get("lines", {}).items():
+            m["lines"].setdefault(k, set()).update(v)
+        for k, v in r.get("executable", {}).items():
+            m["executable"].setdefault(k, set()).update(v)
     return m
+
+
+def anchor_files(prop: str) -> list[str]:
+    try:
+        with open(os.path.join(ROOT, "properties.jsonl")) as f:
+            for line in f:
+                d = json.loads(line)
+                if d["id"] == prop:
+                    return list(d["anchors"]["files"])
+    except Exception:
+        pass
+    return []
 
 
 def load_known_findings() -> list[dict]:
@@ -252,6 +272,13 @@ def run_property(prop: str, tier: str, seed: int) -> int:
 
     wall = time.time() - t0
     level = getattr(mod, "LEVEL", "exploration")
+    lines_reached = {}
+    for f in anchor_files(prop):
+        ex = m["lines"].get(f, set())
+        able = m["executable"].get(f, set())
+        if able:
+            body = sorted(able - ex)
+            lines_reached[f] = {"executed": len(ex & able), "executable": len(able), "not_executed": body[:40]}
     coverage = {
         "evaluations": int(m["evaluations"]),
         "distinct_nontrivial": len(m["nontrivial"]),
@@ -266,6 +293,7 @@ def run_property(prop: str, tier: str, seed: int) -> int:
         "classes": dict(sorted(m["classes"].items())),
         "worst_residuals": {k: float(f"{v:.4g}") for k, v in sorted(m["maxima"].items())},
         "known_findings_seen": {k: n for k, (_, n) in listed.items()},
+        "lines_reached_in_anchor_files": lines_reached,
         "shards": len(shards),
         "inconclusive_reasons": inconclusive[:10],
         "notes": m["notes"],
